@@ -633,15 +633,16 @@ static void generate(int level, int nrandom, uint64_t seed) {
       fault_sweep(level >= 3 ? KT : KQ, level >= 3 ? 5 : 3, 0);
     } }
   /* (11) the same without knowing where the boundaries are: the filler length runs over a full residue class range
-   *      0..1030 (quick: a seeded third of it per run for each kind, so three seeds cover everything), a failing write / fsync /
-   *      close / link at every such call x {ENOSPC, short write} */
+   *      0..1030 (quick: mbox all of it, maildir a third of it per seed, so three seeds cover everything), a failing write /
+   *      fsync / close / link at every such call x {ENOSPC (thorough: + short write)} and short write + ENOSPC on the retry */
   { static const int KR[] = { ENOSPC, -1 };
     for (int md = 0; md < 2; md++) for (int base = 0; base < (level >= 3 ? 3 : 1); base++) for (long f = 0; f <= 1030; f++) {
-      if (level < 3 && (f + seed + md) % 3 != 0) continue;
+      if (level < 3 && md && (f + seed) % 3 != 0) continue;
       if (!mine()) continue;
       kclear(md ? "md" : "mb");
       int style = (int)((f / 3 + base) % 4);
-      filler_msg(style, 1 + f + 1024L * base + (base ? (long)((seed * 7919) % 1024) : 0));
+      long kb = level >= 3 ? base : (long)((f / 7 + seed) % 3);                /* which multiple of 1024 the range sits on */
+      filler_msg(style, 1 + f + 1024L * kb);
       if (!md) set_box((int)(f % 2) * 2);
       fault_sweep(KR, level >= 3 ? 2 : 1, 1);
     } }
